@@ -115,6 +115,7 @@ impl Exec {
                         };
                         return Err(Failure::new(property, tag, format!("{} was acknowledged {:?}, expected {:?} (limit {}, model now holds {:?})", what, status, expected, self.cfg.max_weight, self.model.held)));
                     }
+                    if status == St::Accepted { self.deleted_keys.remove(&k); }
                     if status == St::Accepted && from_upsert {
                         if let Some(entry) = self.model.held.get_mut(&k) { entry.last_write_upsert = true; }
                     }
@@ -126,6 +127,7 @@ impl Exec {
                 Pending::Delete { k } => {
                     let expected = if self.model.held.contains_key(&k) {
                         self.model.remove(k);
+                        self.deleted_keys.insert(k);
                         self.stats.deletes_accepted += 1;
                         St::Accepted
                     } else {
@@ -157,7 +159,11 @@ impl Exec {
                 return Ok(St::RejWeight);
             }
             let entry = &self.model.held[&k];
-            if !entry.soft_deleted && self.model.expired(entry) {
+            if entry.soft_deleted && observed != St::RejExists {
+                // the key reads as absent (deleted, the Delete command still queued behind this put): an implementation may
+                // admit the put; the deleted incarnation must then be released (checked by the accounting comparison)
+                self.model.remove(k);
+            } else if !entry.soft_deleted && self.model.expired(entry) {
                 // the key reads as absent (past its time-to-live, not yet swept): C07 says its fate is decided by admission alone
                 if observed == St::RejExists {
                     self.soft(Failure::new("C07", "C07/put/expired-unswept", format!("put(k={}) of a key past its time-to-live (not yet swept, reads as absent) was refused with KeyAlreadyExists by the worker", k)))?;
@@ -441,6 +447,7 @@ impl Exec {
                     }
                 }
             }
+            Op::StepWorker => Ok(()),
             Op::Stall { burst } => self.exec_stall(burst),
         }
     }
@@ -468,6 +475,12 @@ impl Exec {
                 }
             } else if let Op::Read { kind, keys } = op {
                 self.exec_read(*kind, keys)?;
+            } else if matches!(op, Op::StepWorker) && !self.pending.is_empty() {
+                // the worker (parked after dequeuing the oldest command) executes exactly that command, then parks again
+                let oldest = self.pending.remove(0);
+                self.inst.worker_gate.step();
+                self.complete_pending(vec![oldest], None)?;
+                self.stats.worker_steps += 1;
             }
             // C01 at an instant where commands are still queued
             let used = self.cache.total_weight_used();
